@@ -305,6 +305,7 @@ func c04Run(c *Ctx) {
 		}
 	}
 	layers = append(layers, sweepLayer{"scale", GenOpts{Scale: true, ScaleThorough: c.Thorough(), RichEnv: true}, 0, []Flags{{}, {N: true, B: true, I: true, W: true}, zsets[0]}})
+	layers = append(layers, rootedLayers(c.Thorough(), []Flags{{}, {N: true, B: true, I: true, W: true}})...)
 	layers = append(layers, sweepLayer{"spellings", GenOpts{LeafSet: 2, OneGate: true, RichEnv: true, Spellings: true}, 0, []Flags{{}, {N: true, B: true, I: true, W: true, F: []string{ns}}}})
 	report := func(root *LNode, line, desc string, fl Flags, out string, ok bool, replay map[string]any) {
 		diffs := c04Eval(root, fl, out, ok)
@@ -455,7 +456,7 @@ func c04Run(c *Ctx) {
 func init() {
 	register(&PropDef{
 		ID: "C04", Level: "exploration",
-		Rule:        "G with the rich envelope (64-bit integers, exponent / decimal / huge literals, nested arrays of arrays of documents, escape-heavy strings and keys incl. control characters) at 0 deviations over all 6 gates x 6 containers under all 2^7 flag sets plus two selective-mode sets, <=1 non-default production under a pairwise-covering set (thorough: <=2); T4 = every vocabulary path x {16 number literals, 14 strings of every escape class, mixed arrays, odd keys} x 5 tree shapes placed in 3 positions outside the zones (non-zone attribute, non-query command member, other component); $limit / $skip with every number literal at pipeline depth 0..3. Oracle: parallel walk of the labelled input tree and the output parsed by the harness' own reader: every KEEP position deep-identical (keys, order, decoded strings, number literal TEXT), namespaces identical without W, attr.remote without I, planSummary without F, every object key outside the zones and (without F) inside them identical. distinct = distinct input lines" + scaleRule + streamLenRule + "; a SECRET number / boolean keeps its literal when its flag is off" + twinRule,
+		Rule:        "G with the rich envelope (64-bit integers, exponent / decimal / huge literals, nested arrays of arrays of documents, escape-heavy strings and keys incl. control characters) at 0 deviations over all 6 gates x 6 containers under all 2^7 flag sets plus two selective-mode sets, <=1 non-default production under a pairwise-covering set (thorough: <=2); T4 = every vocabulary path x {16 number literals, 14 strings of every escape class, mixed arrays, odd keys} x 5 tree shapes placed in 3 positions outside the zones (non-zone attribute, non-query command member, other component); $limit / $skip with every number literal at pipeline depth 0..3. Oracle: parallel walk of the labelled input tree and the output parsed by the harness' own reader: every KEEP position deep-identical (keys, order, decoded strings, number literal TEXT), namespaces identical without W, attr.remote without I, planSummary without F, every object key outside the zones and (without F) inside them identical. distinct = distinct input lines" + scaleRule + streamLenRule + "; a SECRET number / boolean keeps its literal when its flag is off" + twinRule + rootedRule,
 		Assumptions: []string{"the label table of G (GRAMMAR.md / DESIGN.md 3.0) decides which command members are KEEP", "shape changes inside zones are C03's concern and stop the parallel walk at that node"},
 		Run:         c04Run,
 	})
